@@ -156,6 +156,7 @@ fn rec_fwd() -> Arc<RecFwd> {
         icmp: MuxChoice::Real,
         check_auth_err: None,
         received: Default::default(),
+        abandoned: Default::default(),
     })
 }
 
